@@ -11,7 +11,7 @@ LEAN_MODULES = ["Econf.Props.C16", "Econf.Props.Tie"]
 THEOREMS = ["Econf.C16_gate", "Econf.C16_refused", "Econf.C16_reset", "Econf.C16_all_pass_history", "Econf.C16_all_pass_file", "Econf.C16_first_refused", "Econf.Struct.tie_gate_codes"]
 SHRINK = False
 RULE = ("small trees x every consulted file assigned {matching, foreign} owner and group and {regular, symbolic link to a file elsewhere, symbolic link to /dev/null} at random x every "
-        "subset of {required owner, required group, no symlinks} (the setters called in any order, the symbolic-link rule also set and lifted again or stated as the default) x read entry points (single file, layered, two-directory, history); "
+        "subset of {required owner, required group, no symlinks} (required IDs: root's, the other user's, the largest value of the type) (the setters called in any order, the symbolic-link rule also set and lifted again or stated as the default) x read entry points (single file, layered, two-directory, history); "
         "the result is compared with: code of the first offending consulted file and no content, or the unrestricted result; after the "
         "reset call the read must equal the unrestricted one; non-trivial = a restriction is active and a file consulted; "
         "plus relative names with `..` behind a symbolic link to a directory (the file checked must be the file read); "
@@ -68,6 +68,10 @@ def make(rng, sid):
         p["call"] = ("RD", u[1:], e[1:], nm, sfx)
         p["dirs"] = [u[1:], e[1:]]
     restr = {"owner": rng.random() < 0.5, "group": rng.random() < 0.5, "nosymlink": rng.random() < 0.5}
+    # the required IDs: mostly root's, sometimes the other user's (then root's files are the foreign ones), sometimes the largest
+    # value the type has (no file carries it: every file is refused)
+    restr["uid"] = rng.choice([UID] * 8 + [FUID, 4294967295])
+    restr["gid"] = rng.choice([GID] * 8 + [FGID, 4294967295])
     # econf_requirePermissions in force as well: bits every file and directory of the tree has (files 0644, directories 0755,
     # links 0777), or bits that the files / the directories lack
     perms = rng.choice([None, None, ("644", "755"), ("400", "001"), ("001", "755"), ("644", "002")])
@@ -83,9 +87,9 @@ def make(rng, sid):
     # default stated explicitly); what is in force is what each setter was told last
     cmds = []
     if restr["owner"]:
-        cmds.append(("G", "owner", UID))
+        cmds.append(("G", "owner", restr["uid"]))
     if restr["group"]:
-        cmds.append(("G", "group", GID))
+        cmds.append(("G", "group", restr["gid"]))
     if perms:
         cmds.append(("G", "perms", perms[0], perms[1]))
     rng.shuffle(cmds)
@@ -196,13 +200,13 @@ def dotdot_scenarios(rng, n):
     return out
 
 
-def offence(attr, ro, rg, rl, perms=None, isdir=False):
+def offence(attr, ro, rg, rl, perms=None, isdir=False, ru=UID, rgid=GID):
     u, g, link = attr
     if rl and link:
         return 20
-    if ro and u != UID:
+    if ro and u != ru:
         return 16
-    if rg and g != GID:
+    if rg and g != rgid:
         return 17
     if perms:
         mode = 0o777 if link else (0o755 if isdir else 0o644)
@@ -258,7 +262,7 @@ def oracle(s, lines):
     for f in order:
         a = m["attrs"].get(trees.norm(f))
         isdir = a is None   # directories ('.', '..', sub-directories): root owned, not links
-        code = offence(a or (UID, GID, False), r["owner"], r["group"], r["nosymlink"], m.get("perms"), isdir)
+        code = offence(a or (UID, GID, False), r["owner"], r["group"], r["nosymlink"], m.get("perms"), isdir, r.get("uid", UID), r.get("gid", GID))
         if code is not None:
             break
     raws = parse_raws(lines)
